@@ -45,7 +45,7 @@ fn worker_main() -> i32 {
         if line.trim().is_empty() {
             continue;
         }
-        let cmd: serde_json::Value = match serde_json::from_str(&line) {
+        let cmd: serde_json::Value = match supervisor::parse_json_unbounded(&line) {
             Ok(v) => v,
             Err(e) => {
                 println!("{}", serde_json::json!({"fatal": format!("bad command: {}", e)}));
